@@ -105,7 +105,10 @@ class ParseAPI(object):
                 return None
         else:
             master_secret = pair[1].encode("utf8")  # type: ignore[assignment]
-        return self._network.keys.hd_seed(master_secret)
+        hd_seed = getattr(self._network.keys, "hd_seed", None)
+        if hd_seed is None:
+            return None
+        return hd_seed(master_secret)
 
     def bip32_prv(self, s: str) -> Any:
         """
